@@ -90,7 +90,7 @@ def c17_1(ctx):
     if loops:
         lp = loops[0]
         j = [c for c in ast.walk(lp) if isinstance(c, ast.Call) and unparse(c.func) == 'os.path.join']
-        ok = len(j) == 1 and [unparse(a) for a in j[0].args] == [unparse(lp.target), lf.call_params[0].arg] and unparse(lp.iter) == lf.call_params[1].arg
+        ok = len(j) >= 1 and all([unparse(a) for a in jj.args] == [unparse(lp.target), lf.call_params[0].arg] for jj in j) and unparse(lp.iter) == lf.call_params[1].arg
         ctx.check(ok, 'include:searched-in-each-dir', lf.site(lp), 'each search directory is probed for the name', '; '.join(unparse(x) for x in j))
     e = [n for n in ast.walk(load.node) if isinstance(n, ast.ExceptHandler) and n.type is not None and 'FileNotFoundError' in unparse(n.type)]
     ctx.check(len(e) == 1 and body_only_aborts(e[0].body), 'include:unreadable-rejected', load.site(e[0]) if e else load.site(), 'a file that cannot be opened is rejected', '')
